@@ -63,7 +63,7 @@ theorem float_addsubmul_eq_spec (R : Rounding) (x y : Dbl) (hx : stable x) (hy :
     (opMul R (.flt x) (.flt y)).map absNum = specBin (implR R) .mul (.float x) (.float y) := by
   have hn := stable_neg y hy
   refine ⟨?_, ?_, ?_⟩ <;>
-    simp [opAdd, opSub, opMul, coerce, asDec, liftF, fadd, fsub, fmul, specBin, promote, XVal.ty, Ty.rank,
+    simp [opAdd, opSub, opMul, coerce, mixedOverflow, intOvf, isFloat, asDec, liftF, fadd, fsub, fmul, specBin, promote, XVal.ty, Ty.rank,
       XVal.toRat?, floatBin, XVal.toDbl, mkFloating, absNum, Except.map, pure, Except.pure,
       mkFloat_add R x y hx hy, mkFloat_add R x y.neg hx hn, mkFloat_mul]
 
@@ -71,14 +71,14 @@ theorem float_div_eq_spec_partial (R : Rounding) (v : Ver) (x y : Dbl)
     (hk : trigF06t R v .div (.flt x) (.flt y) = false) :
     (opDiv R v (.flt x) (.flt y)).map absNum = specBin (implR R) .div (.float x) (.float y) := by
   have hz : Dbl.isZero y = false := by
-    simpa [trigF06t, coerce, floatTyped, isFlt, isDbl, isZero] using hk
-  simp [opDiv, coerce, asDec, liftF, ftruediv, isZero, hz, specBin, promote, XVal.ty, Ty.rank,
+    simpa [trigF06t, coerce, mixedOverflow, intOvf, isFloat, floatTyped, isFlt, isDbl, isZero] using hk
+  simp [opDiv, coerce, mixedOverflow, intOvf, isFloat, asDec, liftF, ftruediv, isZero, hz, specBin, promote, XVal.ty, Ty.rank,
       XVal.toRat?, floatBin, XVal.toDbl, mkFloating, absNum, Except.map, pure, Except.pure, mkFloat_div]
 
 theorem float_idiv_eq_spec (R : Rounding) (x y : Dbl) :
     (opIdiv R (.flt x) (.flt y)).map absNum = specBin (implR R) .idiv (.float x) (.float y) := by
   cases x <;> cases y <;>
-    simp [opIdiv, coerce, isZero, Dbl.isZero, asDec, idivFloat, dblIdiv, specBin, promote, XVal.ty, Ty.rank,
+    simp [opIdiv, coerce, mixedOverflow, intOvf, isFloat, isZero, Dbl.isZero, asDec, idivFloat, dblIdiv, specBin, promote, XVal.ty, Ty.rank,
       XVal.toRat?, floatBin, XVal.toDbl, absNum, numIsInf, numIsNan, Dbl.isInf, Dbl.isNan,
       Except.map, pure, Except.pure, bind, Except.bind, throw, throwThe, MonadExceptOf.throw]
   rename_i p q
@@ -89,20 +89,13 @@ theorem float_mod_eq_spec_partial (R : Rounding) (v : Ver) (hv : v ≠ .v10) (x 
     (hk : trigF06t R v .mod (.flt x) (.flt y) = false) :
     (opMod R v (.flt x) (.flt y)).map absNum = specBin (implR R) .mod (.float x) (.float y) := by
   have hz : Dbl.isZero y = false := by
-    simpa [trigF06t, coerce, floatTyped, isFlt, isDbl, isZero] using hk
+    simpa [trigF06t, coerce, mixedOverflow, intOvf, isFloat, floatTyped, isFlt, isDbl, isZero] using hk
   unfold stable at hx hm
   cases x <;> cases y <;> simp [Dbl.isZero] at hz <;>
-    simp_all [opMod, coerce, isZero, Dbl.isZero, asDec, liftF, fmod, ieeeMod, specBin, promote, XVal.ty, Ty.rank,
+    simp_all [opMod, coerce, mixedOverflow, intOvf, isFloat, isZero, Dbl.isZero, asDec, liftF, fmod, ieeeMod, specBin, promote, XVal.ty, Ty.rank,
       XVal.toRat?, floatBin, XVal.toDbl, mkFloating, absNum, isFloat, numIsInf, numIsNan, Dbl.isInf, Dbl.isNan,
       pyFloatModIsNan, Except.map, pure, Except.pure, mkFloat_nan, mkFloat_zero]
 
-
-/-- the operand as the xs:float payload it is promoted to (by the implementation) -/
-def asF (R : Rounding) : Num → Dbl
-  | .int n => ofInt R n
-  | .dec n s => mkFloat (ofDec R n s)
-  | .dbl d => d
-  | .flt d => d
 
 /-- integer operands are inside the range that `Float.__new__` leaves alone (|n| ≤ 3.4028235e38) -/
 def intsStable (R : Rounding) (a b : Num) : Prop :=
@@ -123,12 +116,14 @@ theorem spec_promote_float (R : Rounding) (op : BinOp) (a b : Num) (h : floatTyp
     rw [this]; rfl
 
 
-theorem model_promote_float_addsubmul (R : Rounding) (a b : Num) (h : floatTyped a b = true) :
+theorem model_promote_float_addsubmul (R : Rounding) (a b : Num) (h : floatTyped a b = true)
+    (hi : intsFinite R a b) :
     opAdd R a b = opAdd R (.flt (asF R a)) (.flt (asF R b)) ∧
     opSub R a b = opSub R (.flt (asF R a)) (.flt (asF R b)) ∧
     opMul R a b = opMul R (.flt (asF R a)) (.flt (asF R b)) := by
-  cases a <;> cases b <;> simp [floatTyped, isFlt, isDbl] at h <;>
-    simp [opAdd, opSub, opMul, coerce, asDec, liftF, asF]
+  obtain ⟨hA, hB⟩ := intOvf_of_finite R a b hi
+  cases a <;> cases b <;> simp [floatTyped, isFlt, isDbl] at h <;> simp [intOvf] at hA hB <;>
+    simp [opAdd, opSub, opMul, coerce, mixedOverflow, intOvf, isFloat, asDec, liftF, asF, hA, hB]
 
 theorem isZero_asF_of_not_trig (R : Rounding) (hF : Faithful R) (v : Ver) (op : BinOp) (hop : op = .div ∨ op = .mod)
     (a b : Num) (h : floatTyped a b = true) (hk : trigF06t R v op a b = false) :
@@ -136,42 +131,44 @@ theorem isZero_asF_of_not_trig (R : Rounding) (hF : Faithful R) (v : Ver) (op : 
   have hz := isZero_ofInt R hF
   rcases hop with rfl | rfl <;>
   cases a <;> cases b <;> simp [floatTyped, isFlt, isDbl] at h <;>
-    simp [trigF06t, floatTyped, isFlt, isDbl, coerce, isZero] at hk <;>
+    simp [trigF06t, floatTyped, isFlt, isDbl, coerce, mixedOverflow, intOvf, isFloat, isZero] at hk <;>
     simp_all [asF]
 
 theorem div_promote_float (R : Rounding) (hF : Faithful R) (v : Ver) (a b : Num) (h : floatTyped a b = true)
-    (hk : trigF06t R v .div a b = false) :
+    (hi : intsFinite R a b) (hk : trigF06t R v .div a b = false) :
     opDiv R v a b = opDiv R v (.flt (asF R a)) (.flt (asF R b)) := by
   have hz := isZero_ofInt R hF
   have hb := isZero_asF_of_not_trig R hF v .div (Or.inl rfl) a b h hk
-  cases a <;> cases b <;> simp [floatTyped, isFlt, isDbl] at h <;>
+  obtain ⟨hA, hB⟩ := intOvf_of_finite R a b hi
+  cases a <;> cases b <;> simp [floatTyped, isFlt, isDbl] at h <;> simp [intOvf] at hA hB <;>
     simp [asF] at hb <;>
-    simp_all [opDiv, coerce, asDec, liftF, asF, isZero, isFloat]
+    simp_all [opDiv, coerce, mixedOverflow, intOvf, isFloat, asDec, liftF, asF, isZero, isFloat]
 
 theorem idiv_promote_float (R : Rounding) (hF : Faithful R) (a b : Num) (h : floatTyped a b = true)
     (hi : intsFinite R a b) :
     opIdiv R a b = opIdiv R (.flt (asF R a)) (.flt (asF R b)) := by
   have hz := isZero_ofInt R hF
   have hn := isNan_ofInt R hF
-  cases a <;> cases b <;> simp [floatTyped, isFlt, isDbl] at h <;>
-    simp [opIdiv, coerce, asDec, asF, isZero, numIsInf, numIsNan, hz, hn] <;> (try rfl)
-  · rename_i n d; simp [hi.1 n rfl]; rfl
+  obtain ⟨hA, hB⟩ := intOvf_of_finite R a b hi
+  cases a <;> cases b <;> simp [floatTyped, isFlt, isDbl] at h <;> simp [intOvf] at hA hB <;>
+    simp [opIdiv, coerce, mixedOverflow, intOvf, isFloat, asDec, asF, isZero, numIsInf, numIsNan, hz, hn, hA, hB] <;>
+    (try rfl)
 
 theorem mod_promote_float (R : Rounding) (hF : Faithful R) (v : Ver) (hv : v ≠ .v10) (a b : Num)
     (h : floatTyped a b = true) (hi : intsFinite R a b) (hk : trigF06t R v .mod a b = false) :
     opMod R v a b = opMod R v (.flt (asF R a)) (.flt (asF R b)) := by
   have hz := isZero_ofInt R hF
   have hn := isNan_ofInt R hF
-  cases a <;> cases b <;> simp [floatTyped, isFlt, isDbl] at h <;>
-    simp [trigF06t, floatTyped, isFlt, isDbl, coerce, numIsInf, isZero, hv] at hk <;>
-    simp [opMod, coerce, asDec, asF, isZero, isFloat, numIsInf, numIsNan, liftF, hz, hn, hv] <;> (try rfl)
+  obtain ⟨hA, hB⟩ := intOvf_of_finite R a b hi
+  cases a <;> cases b <;> simp [floatTyped, isFlt, isDbl] at h <;> simp [intOvf] at hA hB <;>
+    simp [trigF06t, floatTyped, isFlt, isDbl, coerce, mixedOverflow, intOvf, isFloat, numIsInf, isZero, hv] at hk <;>
+    simp [opMod, coerce, mixedOverflow, intOvf, isFloat, asDec, asF, isZero, isFloat, numIsInf, numIsNan, liftF, hz, hn,
+      hv, hA, hB] <;> (try rfl)
   · rename_i n d
-    simp only [hi.1 n rfl, and_true, hk.1]
+    simp only [hk.1]
     by_cases hc : Dbl.isInf d = true ∧ ¬ n = 0
     · exact absurd (hk.2 hc.1) hc.2
     · simp [hc]
-  · rename_i d n
-    simp [hi.2 n rfl, hk]
 
 
 theorem mkFloat_idem (d : Dbl) : stable (mkFloat d) := by
@@ -206,7 +203,7 @@ theorem asF_stable (R : Rounding) (a b : Num) (hs : intsStable R a b) (ha : numS
 
 theorem trig_flt_of_nonzero (R : Rounding) (v : Ver) (x y : Dbl) (hz : Dbl.isZero y = false) :
     trigF06t R v .div (.flt x) (.flt y) = false ∧ trigF06t R v .mod (.flt x) (.flt y) = false := by
-  simp [trigF06t, floatTyped, isFlt, isDbl, coerce, isZero, hz]
+  simp [trigF06t, floatTyped, isFlt, isDbl, coerce, mixedOverflow, intOvf, isFloat, isZero, hz]
 
 /-- PARTIAL (F06t; precision = finding F06c): every operator on operands whose promoted type is xs:float
 (xs:float with xs:float, xs:integer or xs:decimal) is the F&O operator computed with the rounding
@@ -221,12 +218,12 @@ theorem float_ops_eq_spec (R : Rounding) (hF : Faithful R) (v : Ver) (hv : v ≠
   rw [spec_promote_float R op a b h hs]
   obtain ⟨sa, sb⟩ := asF_stable R a b hs ha hb h
   cases op with
-  | add => simp only [modelBin]; rw [(model_promote_float_addsubmul R a b h).1]; exact (float_addsubmul_eq_spec R _ _ sa sb).1
-  | sub => simp only [modelBin]; rw [(model_promote_float_addsubmul R a b h).2.1]; exact (float_addsubmul_eq_spec R _ _ sa sb).2.1
-  | mul => simp only [modelBin]; rw [(model_promote_float_addsubmul R a b h).2.2]; exact (float_addsubmul_eq_spec R _ _ sa sb).2.2
+  | add => simp only [modelBin]; rw [(model_promote_float_addsubmul R a b h hi).1]; exact (float_addsubmul_eq_spec R _ _ sa sb).1
+  | sub => simp only [modelBin]; rw [(model_promote_float_addsubmul R a b h hi).2.1]; exact (float_addsubmul_eq_spec R _ _ sa sb).2.1
+  | mul => simp only [modelBin]; rw [(model_promote_float_addsubmul R a b h hi).2.2]; exact (float_addsubmul_eq_spec R _ _ sa sb).2.2
   | div =>
     have hz := isZero_asF_of_not_trig R hF v .div (Or.inl rfl) a b h hk
-    simp only [modelBin]; rw [div_promote_float R hF v a b h hk]
+    simp only [modelBin]; rw [div_promote_float R hF v a b h hi hk]
     exact float_div_eq_spec_partial R v _ _ (trig_flt_of_nonzero R v _ _ hz).1
   | idiv => simp only [modelBin]; rw [idiv_promote_float R hF a b h hi]; exact float_idiv_eq_spec R _ _
   | mod =>
